@@ -62,7 +62,7 @@ def oracle(tier, rng, deep=False):
     from skglm.estimators import SparseLogisticRegression, LinearSVC
     failures = []
     ev = nontriv = 0
-    nrep = 6 if tier == "quick" and not deep else 40
+    nrep = 6 if tier == "quick" and not deep else (18 if tier == "quick" else 40)   # quick + broken obligation: 3x the quick search
     for _ in range(nrep):
         K = rng.choice([2, 2, 3, 4, 5])
         n, p = rng.randint(12 * K, 20 * K), rng.randint(2, 5)
